@@ -27,6 +27,7 @@ try:
         try:
             p = subprocess.run([os.path.join(VROOT, "check"), pid, "--tier", "quick"], cwd=VROOT, capture_output=True, text=True, timeout=1500)
             lines = [l for l in p.stdout.splitlines() if any(k in l for k in ("VIOLATION", "signature", "KNOWN-FINDING", "TOOL-ERROR", "DIVERGENCE"))]
+            lines.sort(key=lambda l: 0 if ("VIOLATION" in l or "signature" in l) else 1)   # stable: verdict lines first
             print("== %s rc=%d" % (pid, p.returncode))
             for l in lines[:8]:
                 print("   " + l[:300])
